@@ -38,12 +38,19 @@ class Boundary(object):
         self.count = 0
         self.crash_at = None
         self.unwind = False          # True: death by interruption (stack unwinds once), False: killed outright
+        self.locked = False          # True: no death -- the COMMIT at this boundary is refused ("database is locked": another process reads the file)
         self.log = []
 
     def hit(self, what):
         if not self.armed:
             return
         if self.crash_at is not None and self.count == self.crash_at:
+            if self.locked:
+                if what != "commit":
+                    raise core.Infeasible()                    # only a commit is refused in this fault model
+                self.log.append("REFUSED commit (database is locked)")
+                self.crash_at = None
+                raise sqlite3.OperationalError("database is locked")   # sqlite leaves the transaction open when COMMIT fails with BUSY
             if self.unwind:
                 self.log.append("INTERRUPTED before %s" % what)
                 self.crash_at = None            # what the unwinding code still does to the store is executed
@@ -260,12 +267,17 @@ def h_crash(ctx, table, n_ops):
         post = dict(model)
         ops[seq[-1]][1](post)
         crash_at = ctx.choice("crash_at", ["none", 0, 1, 2, 3, 4])
-        b.unwind = ctx.choice("death", ["killed", "interrupted"]) == "interrupted"
+        death = ctx.choice("death", ["killed", "interrupted", "commit-refused"])
+        b.unwind, b.locked = death == "interrupted", death == "commit-refused"
         b.armed, b.crash_at, b.count = True, (None if crash_at == "none" else crash_at), 0
         crashed = False
         try:
             ops[seq[-1]][0](store)
         except (Crash, Interrupted):
+            crashed = True
+        except sqlite3.OperationalError:
+            # the refusal is reported to the caller: the update may or may not be there after the restart, but nothing is half done;
+            # an operation that RETURNS although its commit was refused has promised durability it does not have (checked as no-crash)
             crashed = True
         b.armed = False
         ctx.note("boundaries %s" % b.log)
@@ -576,13 +588,16 @@ def h_sym(ctx, table, n_ops):
         pre, post = ghost.copy(), ghost.copy()
         upd(post)
         crash_at = ctx.choice("crash_at", ["none", 0, 1, 2, 3])
-        b.unwind = ctx.choice("death", ["killed", "interrupted"]) == "interrupted"
+        death = ctx.choice("death", ["killed", "interrupted", "commit-refused"])
+        b.unwind, b.locked = death == "interrupted", death == "commit-refused"
         b.armed, b.crash_at, b.count = True, (None if crash_at == "none" else crash_at), 0
         crashed = False
         try:
             run()
         except (Crash, Interrupted):
             crashed = True
+        except sqlite3.OperationalError:
+            crashed = True            # reported to the caller (see h_crash)
         b.armed = False
         jobs = journal_obs(journal_modes(env.fake.conns if env.tmp else env.conns))
         env.die()
